@@ -1,7 +1,9 @@
 package chainlib
 
 import (
+	"encoding/json"
 	"fmt"
+	"os"
 
 	"gitlab.com/aquachain/aquachain/verifharness/vh"
 )
@@ -272,6 +274,22 @@ func PruningScenario(rng *vh.RNG, prop string, name string) *Scenario {
 	return sc
 }
 
+func loadRaceSpec(path string) *RaceSpec {
+	raw, err := os.ReadFile(path)
+	if err != nil {
+		return nil
+	}
+	var f struct {
+		Replay struct {
+			Race *RaceSpec `json:"race"`
+		} `json:"replay"`
+	}
+	if json.Unmarshal(raw, &f) != nil {
+		return nil
+	}
+	return f.Replay.Race
+}
+
 // Main is the body of cmd/c02 and cmd/c03.
 func Main(prop string) {
 	c := vh.Init(prop)
@@ -283,9 +301,17 @@ func Main(prop string) {
 	c.Assume("archive mode (CacheConfig.Disabled) for every session compared with the model; header verification by the full-fake engine; tie-break coin controlled through math/rand.Seed (GODEBUG randseednop=0)")
 	uniq := 0
 	if c.Replay != "" {
-		RunScenario(c, m, prop, LoadReplay(c, c.Replay), uniq)
+		sc := LoadReplay(c, c.Replay)
+		if rs := loadRaceSpec(c.Replay); rs != nil {
+			RunRaces(c, rs, sc)
+		} else {
+			RunScenario(c, m, prop, sc, uniq)
+		}
 		c.Finish()
 		return
+	}
+	if prop == "C02" {
+		RunRaces(c, nil, nil)
 	}
 	for _, sc := range Scripted(prop) {
 		uniq++
